@@ -972,18 +972,20 @@ impl<'p, W, R, T> CompilationScope<'p, W, R, T> {
                         return Err(CompilationError::CallableBindingFailed);
                     }
                     let mut bind = Bind::new();
+                    let mut arg_types = Vec::with_capacity(args.len());
                     for (param, arg) in func.params.iter().zip(args) {
                         let arg_type = self.type_of(arg)?;
                         bind = bind
                             .mix(&param.type_.bind_in_assignment(&arg_type).ok_or(
                                 CompilationError::InvalidArgumentType {
                                     expected: param.type_.clone(),
-                                    got: arg_type,
+                                    got: arg_type.clone(),
                                 },
                             )?)
                             .ok_or(CompilationError::CallableBindingFailed)?;
+                        arg_types.push(arg_type);
                     }
-                    return Ok(func.rtype(&bind));
+                    return Ok(func.rtype_for_call(&bind, &arg_types));
                 }
                 Err(CompilationError::NotAFunction { type_: func_type })
             }
